@@ -23,6 +23,9 @@ def DataFrameColumn_new (truth : Term → Bool) (nrow_is_None : Bool) (nrow : In
   else
     Out.ret [] (Term.app ".view" [column', (Term.sym "cls")])
 
+/-- the decorators of dataiter/data_frame.py: DataFrameColumn.__new__, outermost first -/
+def DataFrameColumn_new_decorators : List String := []
+
 /-- dataiter/data_frame.py: DataFrame._reconcile_column (sha256 of the function source: 8374da515148df48) -/
 def DataFrame_reconcile_column (truth : Term → Bool) (column_nrow : Int) (self_nrow : Int) : Out :=
   if truth (Term.app "isinstance" [(Term.sym "column"), (Term.sym "DataFrameColumn")]) then
@@ -35,6 +38,9 @@ def DataFrame_reconcile_column (truth : Term → Bool) (column_nrow : Int) (self
     let nrow' : Term := (if truth (Term.sym "self") then (Term.int self_nrow) else (Term.sym "None"));
     Out.ret [] (Term.app "DataFrameColumn" [(Term.sym "column"), (Term.app "=nrow" [nrow'])])
 
+/-- the decorators of dataiter/data_frame.py: DataFrame._reconcile_column, outermost first -/
+def DataFrame_reconcile_column_decorators : List String := []
+
 /-- dataiter/data_frame.py: DataFrame._check_dimensions (sha256 of the function source: df97a94de787c0a0) -/
 def DataFrame_check_dimensions (truth : Term → Bool) (len_set_nrows : Int) : Out :=
   if (!truth (Term.sym "self")) then
@@ -46,6 +52,9 @@ def DataFrame_check_dimensions (truth : Term → Bool) (len_set_nrows : Int) : O
     else
       Out.raise [] "ValueError"
 
+/-- the decorators of dataiter/data_frame.py: DataFrame._check_dimensions, outermost first -/
+def DataFrame_check_dimensions_decorators : List String := []
+
 /-- dataiter/data_frame.py: DataFrame.__setitem__ (sha256 of the function source: 9efe7aa994c46e8b) -/
 def DataFrame_setitem (truth : Term → Bool) : Out :=
   let value' : Term := (Term.app "._reconcile_column" [(Term.sym "self"), (Term.sym "value")]);
@@ -55,6 +64,9 @@ def DataFrame_setitem (truth : Term → Bool) : Out :=
   else
     Out.ret [] (Term.app "super().__setitem__" [(Term.sym "key"), value'])
 
+/-- the decorators of dataiter/data_frame.py: DataFrame.__setitem__, outermost first -/
+def DataFrame_setitem_decorators : List String := []
+
 /-- dataiter/vector.py: Vector._check_dimensions (sha256 of the function source: edef83c32490bd45) -/
 def Vector_check_dimensions (truth : Term → Bool) (self_ndim : Int) : Out :=
   if decide (self_ndim = (1 : Int)) then
@@ -62,14 +74,23 @@ def Vector_check_dimensions (truth : Term → Bool) (self_ndim : Int) : Out :=
   else
     Out.raise [] "ValueError"
 
+/-- the decorators of dataiter/vector.py: Vector._check_dimensions, outermost first -/
+def Vector_check_dimensions_decorators : List String := []
+
 /-- dataiter/util.py: length (sha256 of the function source: f2c4ff085c8cc78a) -/
 def util_length (truth : Term → Bool) (len_value : Int) : Out :=
   Out.ret [] (Term.int (if truth (Term.app "is_scalar" [(Term.sym "value")]) then (1 : Int) else len_value))
+
+/-- the decorators of dataiter/util.py: length, outermost first -/
+def util_length_decorators : List String := []
 
 /-- dataiter/vector.py: Vector.length (sha256 of the function source: f9a8d1600615e72a) -/
 def Vector_length (truth : Term → Bool) : Out :=
   let eff0 : Term := (Term.app "._check_dimensions" [(Term.sym "self")]);
   Out.ret [eff0] (Term.app ".size" [(Term.sym "self")])
+
+/-- the decorators of dataiter/vector.py: Vector.length, outermost first -/
+def Vector_length_decorators : List String := ["property"]
 
 /-- dataiter/data_frame.py: DataFrame.nrow (sha256 of the function source: be27b9810d333211) -/
 def DataFrame_nrow (truth : Term → Bool) : Out :=
@@ -78,6 +99,9 @@ def DataFrame_nrow (truth : Term → Bool) : Out :=
   else
     let eff0 : Term := (Term.app "._check_dimensions" [(Term.sym "self")]);
     Out.ret [eff0] (Term.app ".nrow" [(Term.app "getitem" [(Term.sym "self"), (Term.app "next" [(Term.app "iter" [(Term.sym "self")])])])])
+
+/-- the decorators of dataiter/data_frame.py: DataFrame.nrow, outermost first -/
+def DataFrame_nrow_decorators : List String := ["property"]
 
 /-- dataiter/data_frame.py: DataFrame.__delitem__ (sha256 of the function source: 4e1dbfa272dd4be5) -/
 def DataFrame_delitem (truth : Term → Bool) : Out :=
@@ -91,6 +115,9 @@ def DataFrame_delitem (truth : Term → Bool) : Out :=
   else
     Out.ret [] value'
 
+/-- the decorators of dataiter/data_frame.py: DataFrame.__delitem__, outermost first -/
+def DataFrame_delitem_decorators : List String := []
+
 /-- dataiter/data_frame.py: DataFrame.pop (sha256 of the function source: 1e9bd023a4d66dbe) -/
 def DataFrame_pop (truth : Term → Bool) : Out :=
   let value' : Term := (Term.app "super().pop" [(Term.sym "key"), (Term.app "*" [(Term.sym "args")]), (Term.app "=**" [(Term.sym "kwargs")])]);
@@ -103,6 +130,9 @@ def DataFrame_pop (truth : Term → Bool) : Out :=
   else
     Out.ret [] value'
 
+/-- the decorators of dataiter/data_frame.py: DataFrame.pop, outermost first -/
+def DataFrame_pop_decorators : List String := []
+
 /-- dataiter/data_frame.py: DataFrame.__delattr__ (sha256 of the function source: d451320c51b8280e) -/
 def DataFrame_delattr (truth : Term → Bool) : Out :=
   if truth (Term.app "In" [(Term.sym "name"), (Term.sym "self")]) then
@@ -110,12 +140,18 @@ def DataFrame_delattr (truth : Term → Bool) : Out :=
   else
     Out.ret [] (Term.app "super().__delattr__" [(Term.sym "name")])
 
+/-- the decorators of dataiter/data_frame.py: DataFrame.__delattr__, outermost first -/
+def DataFrame_delattr_decorators : List String := []
+
 /-- dataiter/data_frame.py: DataFrame.__getattr__ (sha256 of the function source: 018a5f2266811708) -/
 def DataFrame_getattr (truth : Term → Bool) : Out :=
   if truth (Term.app "In" [(Term.sym "name"), (Term.sym "self")]) then
     Out.ret [] (Term.app ".__getitem__" [(Term.sym "self"), (Term.sym "name")])
   else
     Out.raise [] "AttributeError"
+
+/-- the decorators of dataiter/data_frame.py: DataFrame.__getattr__, outermost first -/
+def DataFrame_getattr_decorators : List String := []
 
 /-- dataiter/data_frame.py: DataFrame.__getattribute__ (sha256 of the function source: 3d4c793237b501e6) -/
 def DataFrame_getattribute (truth : Term → Bool) : Out :=
@@ -127,5 +163,8 @@ def DataFrame_getattribute (truth : Term → Bool) : Out :=
       Out.ret [] (Term.app "getitem" [(Term.sym "self"), (Term.sym "name")])
     else
       Out.ret [] value'
+
+/-- the decorators of dataiter/data_frame.py: DataFrame.__getattribute__, outermost first -/
+def DataFrame_getattribute_decorators : List String := []
 
 end DI.Gen
